@@ -425,6 +425,10 @@ func (e *Env) exec(o Op) Res {
 		if o.N == -3 {
 			return res(v.Chtimes(o.P, time.Time{}, SentinelTime(9)), "")
 		}
+		if o.N >= 0 {
+			// the access time is another sentinel than the modification time: a layer that swaps the two shows
+			return res(v.Chtimes(o.P, SentinelTime(o.N+1000), t), "")
+		}
 		return res(v.Chtimes(o.P, t, t), "")
 	case "Chdir":
 		return res(v.Chdir(o.P), "")
